@@ -267,10 +267,12 @@ def main():
             if not args.no_replay:
                 rp = replay.on_failure(prop, h, v, crate, tdirs[0], logs, REPLAY_DIR, SOLVER_ONLY_RE)
             v["replay"] = rp
-            if rp is not None and rp.get("reproduced") is False and not rp.get("solver_only"):
-                inconclusive.append("%s: counterexample did not reproduce natively (%s)" % (h.name, rp.get("path")))
-                log("INCONCLUSIVE: %s: solver counterexample does not replay natively: %s" % (h.name, rp.get("path")))
-                continue
+            if rp is not None:
+                # The solver's verdict over the real code decides.  The native run is corroboration:
+                # it executes the same harness scenario WITHOUT the allocator/copy stubs, so a
+                # native run that does not fail is recorded (and shown) but does not retract the
+                # violation (DESIGN A.3.7).
+                log("  native replay: %s" % rp.get("native_replay"))
             violations += 1
             for x in v["violations"][:6]:
                 log("  failed: %s  @ %s" % (x["desc"], x["loc"]))
